@@ -169,9 +169,9 @@ def judge(case: dict, r: dict, ref: dict | None) -> list[tuple[str, str]]:
 class C19(Property):
     pid = "C19"
     title = "Concurrent recoveries share work and never deadlock"
-    lean_targets = ["SFV.Props.C19", "SFV.Model.Proto"]
-    props_files = ["SFV/Props/C19.lean"]
-    drivers = ["Drivers/C19.lean"]
+    lean_targets = ["SFV.Props.C19", "SFV.Props.C19Port", "SFV.Model.Proto"]
+    props_files = ["SFV/Props/C19.lean", "SFV/Props/C19Port.lean"]
+    drivers = ["Drivers/C19.lean", "Drivers/C19Port.lean"]
     translators = [recoverguard.generate]
     rule = ("real scatter (2..6 elements) and diamond workflows in which 2..6 jobs fail concurrently with fail-stop failures that delete the failed "
             "job's directories AND those of the shared ancestor (own injector), under the default schedule and under controlled-loop schedules "
@@ -190,7 +190,7 @@ class C19(Property):
                     "failure_manager.py / scheduler.py / step.py by hand (the forced-interleaving runs exercise RUNNING and FIREABLE)",
                     "delivery of regenerated tokens to attached recoveries and termination of each recovery executor are runtime layers (observed, not proved)"]
     assumptions = ["retry limit not reached (max_retries 8)"]
-    technique = "Lean 4: ordered-lock no-deadlock theorem + claim protocol invariant (all interleavings) + real concurrent fail-stop runs with lock/claim trace replay"
+    technique = "Lean 4: ordered-lock no-deadlock theorem + claim protocol invariant (all interleavings) + InterWorkflowPort hand-over theorems (late/early registration) with differential histories on the real port + real concurrent fail-stop runs with lock/claim trace replay"
     level_text = ("grade B: the locking protocol is proved (ordered acquisition never deadlocks; with the lock a producer is claimed at most once while it is "
                   "recovering; without the lock it can be claimed twice); that waiting recoveries receive the regenerated tokens and terminate is observed on "
                   "real concurrent runs; the property's 'once per loss' clause is false when a consumer's recovery starts after the regeneration completed "
@@ -257,6 +257,7 @@ class C19(Property):
                         sacts.append(f"c{rid}")
                 lines.append("status " + " ".join(sacts))
                 meta.append((dict(case, _status_model=True), r))
+        self._explore_ports(ctx)
         got = ctx.lean("Drivers/C19.lean", lines)
         for g, (case, r) in zip(got, meta):
             g = g.strip()
@@ -274,7 +275,94 @@ class C19(Property):
             elif "maxclaims=1" not in g and "maxclaims=0" not in g:
                 ctx.disagree("claim model", f"{case['name']}: {g}", {"recovery": case})
 
+    # ---- port level: InterWorkflowPort hand-over between recovery workflows (SFV/Model/IWPort.lean, SFV/Props/C19Port.lean) ----
+    @staticmethod
+    def _port_history(ops, nports):
+        """run one operation history on real InterWorkflowPort objects; port 0 is the producer, the others plain targets"""
+        from streamflow.core.workflow import Token
+        from streamflow.workflow.port import BoundaryAction, InterWorkflowPort
+        from streamflow.workflow.token import TerminationToken
+        from streamflow.core.workflow import Status
+        ports = [InterWorkflowPort(None, f"p{i}") for i in range(nports)]
+        for op in ops:
+            if op[0] == "put":
+                ports[0].put(Token(value=op[1], tag=f"0.{op[1]}"))
+            elif op[0] == "term":
+                ports[0].put(TerminationToken(Status.COMPLETED))
+            else:
+                _, q, pr, tm, tags = op
+                act = BoundaryAction(0)
+                if pr:
+                    act |= BoundaryAction.PROPAGATE
+                if tm:
+                    act |= BoundaryAction.TERMINATE
+                ports[0].add_inter_port(ports[q], [f"0.{t}" for t in tags], act)
+        return " | ".join(" ".join("T" if isinstance(t, TerminationToken) else t.tag.split(".")[1] for t in pt.token_list) for pt in ports)
+
+    def _explore_ports(self, ctx: Ctx) -> None:
+        rng = ctx.rng
+        lines, expect, meta = [], [], []
+        n = 300 if ctx.tier == "quick" and ctx.mode != "search" else 3000
+        for i in range(n):
+            nports = rng.randint(2, 4)
+            tags = list(range(rng.randint(1, 4)))
+            ops = []
+            if i % 3 == 0:
+                # the C19 hand-over: producer emits t (maybe terminates), a waiting recovery registers [t] before or after
+                t = rng.choice(tags)
+                w = rng.randint(1, nports - 1)
+                seq = [("put", t)] + ([("term",)] if rng.random() < 0.6 else []) + [("put", u) for u in tags if u != t and rng.random() < 0.5]
+                reg = ("add", w, True, rng.random() < 0.5, [t])
+                if rng.random() < 0.4:
+                    ops.append(("add", 0, True, True, [t]))          # recovery A's own rule (as _inject_tokens registers it)
+                pos = rng.randint(0, len(seq))
+                ops += seq[:pos] + [reg] + seq[pos:]
+                want = (w, t)
+            else:
+                for _ in range(rng.randint(1, 9)):
+                    k = rng.random()
+                    if k < 0.45:
+                        ops.append(("put", rng.choice(tags)))
+                    elif k < 0.55:
+                        ops.append(("term",))
+                    else:
+                        ops.append(("add", rng.randint(0, nports - 1), rng.random() < 0.8, rng.random() < 0.5,
+                                    [rng.choice(tags) for _ in range(rng.randint(0, 2))]))
+                want = None
+            try:
+                real = self._port_history(ops, nports)
+            except Exception as e:  # noqa: BLE001
+                ctx.fail("port:exception", f"InterWorkflowPort history {ops} raised {type(e).__name__}: {e}", {"port_history": ops, "nports": nports})
+                continue
+            ctx.case({"op": "port-history", "ops": ops, "real": real}, ("ports", json.dumps(ops)), "port-handover" if want else "port-random")
+            if want is not None:
+                w, t = want
+                got_w = real.split(" | ")[w].split()
+                if str(t) not in got_w:
+                    ctx.fail("port:hand-over-lost", f"recovery port {w} registered [{t}] on the producer port but never received token {t} "
+                             f"(history {ops}; ports {real!r}) — the waiting recovery would block for ever", {"port_history": ops, "nports": nports})
+            lines.append("reset")
+            for op in ops:
+                if op[0] == "put":
+                    lines.append(f"put {op[1]}")
+                elif op[0] == "term":
+                    lines.append("term")
+                else:
+                    lines.append(f"add {op[1]} {int(op[2])} {int(op[3])} " + (",".join(map(str, op[4])) or "-"))
+            lines.append(f"dump {nports - 1}")
+            expect.append(real)
+            meta.append((ops, nports))
+        got = [g for g, l in zip(ctx.lean("Drivers/C19Port.lean", lines), lines) if l.startswith("dump")]
+        for g, e, (ops, nports) in zip(got, expect, meta):
+            if g.strip() != e.strip():
+                ctx.disagree("InterWorkflowPort vs IWPort model", f"history {ops}: code {e!r}, Lean model {g!r}", {"port_history": ops, "nports": nports})
+
     def replay(self, ctx: Ctx, data) -> None:
+        rp = data.get("replay") or (data.get("no_longer_checks") or [{}])[0].get("case") or {}
+        if "port_history" in rp:
+            ops = [tuple(o) for o in rp["port_history"]]
+            print("real ports:", self._port_history(ops, rp["nports"]))
+            return
         rr = data.get("replay") or (data.get("no_longer_checks") or [{}])[0].get("case") or {}
         if "recovery" not in rr:
             return super().replay(ctx, data)
